@@ -18,10 +18,14 @@ def body_coord(E, n, npt):
     np = E.np
     log = EvalLog()
     objfun = mk_objfun(E, 1, log)
-    x0 = E.vec('x0_', n)
-    xl = E.vec('xl', n)
-    xu = E.vec('xu', n)
-    rhobeg = E.real('rhobeg', npy=False)
+    x0 = E.vec('x0_', n, lo=-10 ** 6, hi=10 ** 6)
+    # a bound is either a finite number (|value| <= 1e6) or absent, which solve() stores as -1e20 / +1e20 (one-sided boxes)
+    xl = E.vec('xl', n, lo=-10 ** 6, hi=10 ** 6)
+    xu = E.vec('xu', n, lo=-10 ** 6, hi=10 ** 6)
+    for i in range(n):
+        xl[i] = E.ite(E.bool('has_lower%d' % i), xl[i], -E.const(10 ** 20) + 0 * xl[i])
+        xu[i] = E.ite(E.bool('has_upper%d' % i), xu[i], E.const(10 ** 20) + 0 * xu[i])
+    rhobeg = E.real('rhobeg', npy=False, hi=10 ** 6)
     E.assume(E.all([rhobeg > 0] + [xl[i] <= x0[i] for i in range(n)] + [x0[i] <= xu[i] for i in range(n)] +
                    [xu[i] - xl[i] >= 2 * rhobeg for i in range(n)]))
     maxfun = E.int('maxfun', npt, None)    # enough budget for the whole initialisation
